@@ -13,6 +13,11 @@ structure DzOK (P : Params) where
   C : DzContract P
   fuel : ∀ c hist avail, C.mu c hist avail < P.dzFuel
 
+/-- a decompressor that never hands out data (always `Err` / `WouldBlock` / ...) meets the contract with measure 0 and any
+    positive fuel -/
+def DzOK.ofNoData (P : Params) (h : ∀ c hist call out, (P.dzRead c hist call).res ≠ .data out) (hf : 0 < P.dzFuel) : DzOK P :=
+  ⟨⟨fun _ _ _ => 0, fun c hist call out hres => absurd hres (h c hist call out)⟩, fun _ _ _ => hf⟩
+
 /-- `decoder_read` on a BlockWriter that has a decoder: returns, and the decoder is still there -/
 theorem decoderRead_ok (P : Params) (fuel : Nat) (st : St) (w : BW) (hdz : w.dz.isSome = true) :
     decoderRead P fuel st w = .error .hang ∨
